@@ -121,15 +121,6 @@ def gcase_term(bonds, btypes, obs):
             + cq_list(query_term(q, r) for q, r in obs))
 
 
-def all_queries(n, bonds, with_val=True, starts=None, ring=True):
-    qs = []
-    ss = range(n) if starts is None else starts
-    for s in ss:
-        qs.append(("bfsd", s, None))
-        qs.append(("bfs", s, None))
-    return qs
-
-
 def full_queries(n, bonds, starts=None, dirs="all", adjacency=True, ring=True, val=True, rng=None):
     """every start; every direction (bonded or not); every bond; every atom"""
     qs = []
